@@ -38,7 +38,10 @@ def lattice():
                                     "mixins": [_ref(x) for x in mixins], "documentation": None, "since": None,
                                     "sinceTags": None, "proposed": None, "deprecated": None, "id_": f"id-{name}"})
     structs = [
-        S("M", [_prop("M", "m1"), _prop("M", "shared")]),
+        # the mixin has parents of its own (reached only through the mixin edge of B)
+        S("MB", [_prop("MB", "mb1"), _prop("MB", "m1", "integer")]),
+        S("MM", [_prop("MM", "mm1")]),
+        S("M", [_prop("M", "m1"), _prop("M", "shared")], extends=["MB"], mixins=["MM"]),
         S("M2", [_prop("M2", "m2")]),
         S("G", [_prop("G", "g1"), _prop("G", "deep")]),
         S("B", [_prop("B", "b1"), _prop("B", "shared", "integer")], extends=["G"], mixins=["M"]),
